@@ -84,6 +84,7 @@ func cmdHarness(args []string) int {
 	tmo := fs.Int("timeout", 20000, "solver timeout ms")
 	solvers := fs.String("solvers", "z3new,cvc5,z3", "solver order")
 	noReplay := fs.Bool("noreplay", false, "skip native replay")
+	propF := fs.String("prop", "", "restrict Cxx.-prefixed assertions to this property")
 	fs.Parse(args[1:])
 	name := args[0]
 	t0 := time.Now()
@@ -99,7 +100,7 @@ func cmdHarness(args []string) int {
 	for _, f := range kf.Findings {
 		known[f.ID] = true
 	}
-	hr := e.RunHarness(name, *tier, HarnessOpts{Workers: *workers, TimeoutMs: *tmo, Solvers: strings.Split(*solvers, ",")}, known)
+	hr := e.RunHarness(*propF, name, *tier, HarnessOpts{Workers: *workers, TimeoutMs: *tmo, Solvers: strings.Split(*solvers, ",")}, known)
 	printHarness(hr, true)
 	if !*noReplay && len(hr.Viol) > 0 {
 		rp := newReplayer()
@@ -349,7 +350,7 @@ func cmdRun(args []string) int {
 		if to, ok := reg.Tier[tier][n]; ok {
 			opts = to
 		}
-		hr := e.RunHarness(n, tier, opts, known)
+		hr := e.RunHarness(prop, n, tier, opts, known)
 		runs = append(runs, hr)
 		printHarness(hr, false)
 		if len(hr.EngineErr) > 0 {
